@@ -210,14 +210,26 @@ func c01walk(c *Ctx) {
 				for i, e := range phi.Edges {
 					pred := hdr.Preds[i]
 					if hdr.Dominates(pred) { // back edge
-						cl, _ := an.ResultOfCall(e)
-						if cl == nil || an.CalleeName(&cl.Call) != "k8s.io/apiserver/pkg/quota/v1.Subtract" {
-							cur = false
-							continue
+						// the value carried up: Subtract(new limit, old limit) - possibly handed over through the
+						// result of an extracted iteration body, whose 'stop here' exits carry nil
+						nSub := 0
+						for _, src := range cellSources(e) {
+							if an.IsNilConst(src) {
+								continue
+							}
+							cl, _ := an.ResultOfCall(src)
+							if cl == nil || an.CalleeName(&cl.Call) != "k8s.io/apiserver/pkg/quota/v1.Subtract" {
+								cur = false
+								continue
+							}
+							nc, _ := an.ResultOfCall(firstSource(cl.Call.Args[0]))
+							oc, _ := an.ResultOfCall(firstSource(cl.Call.Args[1]))
+							if nc == nil || oc == nil || an.ShortCallee(&nc.Call) != "getLimitRequestNoLock" || an.ShortCallee(&oc.Call) != "getLimitRequestNoLock" {
+								cur = false
+							}
+							nSub++
 						}
-						nc, _ := an.ResultOfCall(cl.Call.Args[0])
-						oc, _ := an.ResultOfCall(cl.Call.Args[1])
-						if nc == nil || oc == nil || an.ShortCallee(&nc.Call) != "getLimitRequestNoLock" || an.ShortCallee(&oc.Call) != "getLimitRequestNoLock" {
+						if nSub == 0 {
 							cur = false
 						}
 					} else if !isParamOf(fn, e, 0) {
